@@ -3,6 +3,7 @@ import PwVerif.Proofs.ExecFin
 import PwVerif.Proofs.ExecNest
 import PwVerif.Proofs.ExecFine
 import PwVerif.Proofs.FlowFail
+import PwVerif.Proofs.FlowExec
 /-!
 # C06 — A failing node is contained, reported, and leaves consistent statuses
 
@@ -549,6 +550,127 @@ theorem C06_nest_rerun_pinned_witness :
     joinAfter false = some (1, .failed, .done, .done) ∧ joinAfter true = some (0, .failed, .done, .idle) := by
   decide
 
+/-! ### suppression: `raise_run_exceptions=False`
+
+Children of a composite are always run raising; only the caller of the OUTERMOST run can suppress. `runCycle` is that
+outermost runnable's own run cycle around its body; for a composite the body is its whole nested run (`raised t`), which
+has no suppression parameter at all: every status at every level below is the same with and without suppression. -/
+
+/-- SAME BOOK-KEEPING: with and without suppression the outermost runnable ends with the same status, the same signals
+fired, the same (un)touched outputs — wherever it ran, whatever it emits; and a failed run is not running, fired
+`failed` at most once, never `ran`, and left its outputs alone -/
+theorem C06_suppress_bookkeeping (onExec emits hasRecovery : Bool) (body : Option E) :
+    let a := runCycle false true onExec emits hasRecovery body
+    let b := runCycle false false onExec emits hasRecovery body
+    a.running = b.running ∧ a.failed = b.failed ∧ a.failedSignals = b.failedSignals ∧ a.ranSignals = b.ranSignals ∧
+    a.outputsWritten = b.outputsWritten ∧
+    (a.failed = true → a.running = false ∧ a.failedSignals ≤ 1 ∧ a.ranSignals = 0 ∧ a.outputsWritten = false) ∧
+    (a.failed = true ↔ body.isSome = true) := by
+  cases body <;> cases onExec <;> cases emits <;> simp [runCycle]
+
+/-- WHAT DIFFERS: suppressed — nothing is raised (`None` is returned, or the future) and no recovery file is written;
+not suppressed and local — exactly what the body raised is raised, and the recovery file is written iff configured -/
+theorem C06_suppress_result (onExec emits hasRecovery : Bool) (body : Option E) :
+    (∀ e, (runCycle false true onExec emits hasRecovery body).ret ≠ .raised e) ∧
+    (runCycle false true onExec emits hasRecovery body).recovery = false ∧
+    (∀ e, body = some e → (runCycle false false false emits hasRecovery body).ret = .raised e ∧
+      (runCycle false true false emits hasRecovery body).ret = .none ∧
+      (runCycle false false onExec emits hasRecovery body).recovery = hasRecovery) := by
+  refine ⟨?_, ?_, ?_⟩
+  · intro e; cases body <;> cases onExec <;> simp [runCycle]
+  · cases body <;> cases onExec <;> simp [runCycle]
+  · intro e he; subst he; cases onExec <;> simp [runCycle]
+
+/-- AT THE TOP OF ANY TREE: the outermost composite of any nested run (every depth, fault set, schedule), when its loop
+has ended, is marked failed iff some function node at some depth failed — suppressed or not; unsuppressed and local it
+raises exactly `raised t` -/
+theorem C06_suppress_nest {t₀ : Tree E} {d : Dag} {exc : Nat → E} {s : S} {kids : Nat → Tree E}
+    (h : NReach Cfg.repaired t₀ (.comp d exc s kids)) (ho : phaseOver s.phase = true)
+    (suppress onExec emits hasRecovery : Bool) :
+    ((runCycle false suppress onExec emits hasRecovery (raised (.comp d exc s kids))).failed = true ↔
+      ∃ p i, FailedLeafAt (.comp d exc s kids) p i) ∧
+    (∀ e, raised (.comp d exc s kids) = some e →
+      (runCycle false false false emits hasRecovery (raised (.comp d exc s kids))).ret = .raised e) := by
+  have hrep := C06_nest_reported h ho
+  have hbk := (C06_suppress_bookkeeping onExec emits hasRecovery (raised (.comp d exc s kids))).2.2.2.2.2.2
+  have hsame := (C06_suppress_bookkeeping onExec emits hasRecovery (raised (.comp d exc s kids))).2.1
+  have hraised : (raised (.comp d exc s kids)).isSome = true ↔ compFailed s = true := by
+    have hex := over_exited Cfg.repaired rfl _ s (nreach_inv h).1.1 ho
+    simp only [raised, compFailed, hex]
+    cases hl : s.errs with
+    | nil => simp
+    | cons k rest =>
+      simp only [List.isEmpty_cons, Bool.not_false, Bool.true_or, iff_true]
+      split
+      · cases kids k <;> simp
+      · simp
+  refine ⟨?_, ?_⟩
+  · cases suppress
+    · rw [← hsame, hbk, hraised, hrep]
+    · rw [hbk, hraised, hrep]
+  · intro e he; rw [he]; simp [runCycle]
+
+/-- before bc92c66 a suppressed local failure fired `failed` twice and overwrote the outputs -/
+theorem C06_suppress_pinned_witness :
+    (runCycle true true false true true (some 7)).failedSignals = 2 ∧
+    (runCycle true true false true true (some 7)).outputsWritten = true ∧
+    (runCycle false true false true true (some 7)) =
+      { running := false, failed := true, failedSignals := 1, ranSignals := 0, outputsWritten := false,
+        recovery := false, ret := .none } := by decide
+
+/-- the three-level example run by a caller who suppresses: marked failed, nothing raised, no recovery file -/
+example : (runCycle false true false false true (raised tEnd)).failed = true ∧
+    (match (runCycle false true false false true (raised tEnd)).ret with | .none => true | _ => false) = true ∧
+    (runCycle false false false false true (raised tEnd)).recovery = true := by decide
+
+/-! ### the fine interleaving inside nested composites
+
+Every composite of the tree steps the done-callbacks of ITS executor children in two halves (`nstepF`), at every level
+at once; `TreeF.core` forgets the half-way callbacks. -/
+
+def NReachF (cfg : Cfg) (t₀ : Tree E) (tf : TreeF E) : Prop :=
+  NWF t₀ ∧ Fresh t₀ ∧ ∃ acts, nrunF cfg t₀.fine acts = some tf
+
+/-- REFINEMENT, every depth: the core of every state of every nested fine schedule is reachable in the coarse nested
+machine — hence every `C06_nest_*` clause holds at every moment of every fine interleaving at every level, for every
+fault set -/
+theorem C06_nestfine_refines {cfg : Cfg} {t₀ : Tree E} {tf : TreeF E} (h : NReachF cfg t₀ tf) :
+    NReach cfg t₀ tf.core := by
+  obtain ⟨wf, hf, acts, ha⟩ := h
+  obtain ⟨acts', h'⟩ := nrunF_sim cfg acts t₀.fine tf t₀ [] (by simp [nrun]) ha
+  exact ⟨wf, hf, acts', h'⟩
+
+theorem C06_nestfine_no_downstream {cfg : Cfg} {t₀ : Tree E} {tf : TreeF E} (h : NReachF cfg t₀ tf)
+    (p : List Nat) (d : Dag) (exc : Nat → E) (s : S) (kids : Nat → Tree E) (hs : tf.core.sub p = .comp d exc s kids)
+    (i j : Nat) (hj : j ∈ d.deps i) (hf : s.st j ≠ .done) : s.calls i = 0 ∧ s.st i = .idle :=
+  ⟨(C06_nest_no_downstream (C06_nestfine_refines h) p d exc s kids hs i j hj hf).1,
+   (C06_nest_no_downstream (C06_nestfine_refines h) p d exc s kids hs i j hj hf).2.1⟩
+
+/-- when the outermost loop has ended: nobody out at any level, and no composite whose loop has ended has a callback
+half-way -/
+theorem C06_nestfine_nobody_running {t₀ : Tree E} {tf : TreeF E} (h : NReachF Cfg.repaired t₀ tf)
+    (ho : tf.core.over = true) :
+    (∀ p d exc s kids, tf.core.sub p = .comp d exc s kids → s.running = [] ∧ ∀ i, s.st i ≠ .out) ∧ MidInvN tf := by
+  refine ⟨?_, ?_⟩
+  · intro p d exc s kids hs
+    have := C06_nest_nobody_running (C06_nestfine_refines h) ho p d exc s kids hs
+    exact ⟨this.1, this.2.1⟩
+  · obtain ⟨_, _, acts, ha⟩ := h
+    exact nrunF_midInvN Cfg.repaired acts _ tf (fine_midInvN t₀) ha
+
+/-- non-vacuity: workflow ⊃ macro ⊃ `a` (on an executor, raising) → `b`; `a`'s callback is parked after its first call:
+the macro's loop cannot end; after the second call it ends, the macro fails, the workflow's loop ends failed -/
+def wFineIn : FinDag :=
+  { n := 2, slots := [[], [[0]]], down := [[1], []], starters := [0], onExec := [true, false],
+    fails := [true, false], rank := [0, 1] }
+def tFine : Tree Nat := mkComp wOne.toDag (fun _ => 0) [(0, mkComp wFineIn.toDag (fun i => i) [])]
+
+example : ((nrunF Cfg.repaired tFine.fine [([], .start), ([0], .start), ([0], .cbFirst 0)]).map fun t =>
+    (t.midAt [0], (nstepF Cfg.repaired t [0] .exit).isNone)) = some ([0], true) := by decide
+example : ((nrunF Cfg.repaired tFine.fine [([], .start), ([0], .start), ([0], .cbFirst 0), ([0], .cbSecond 0),
+    ([0], .exit), ([], .cbFirst 0), ([], .cbSecond 0), ([], .exit)]).map fun t =>
+    (t.core.over, (raised t.core).map (fun e => (e.root, e.depth)))) = some (true, some (some 0, 2)) := by decide
+
 section Fine
 open PwVerif.ExecFine
 
@@ -810,6 +932,84 @@ theorem C06_flow_pinned_witness :
 end PwVerif.C06
 
 
+/-! ## Hand-wired flows WITH executor children (`FlowExec`: C02's generic `callRun/startAll/deliver` + in-flight children)
+
+A child handed to an executor is only submitted by `run()` (admitted, or refused — also while it is still out); its
+job lands as an action of its own (`complete k`), interleaved anywhere with the deliveries of the loop; the loop ends
+when queue and running set are empty, then the status sweep collects failed children not accounted for (`finish`).
+For every signal graph, child table, executor assignment, exception type and schedule (list of actions). -/
+namespace PwVerif.C06
+open PwVerif PwVerif.Signal PwVerif.FlowFail PwVerif.FlowExec
+
+variable {E : Type}
+
+def XReach (nodes : Nat → Node) (onExec : Nat → Bool) (exc : Nat → Nat → E) (refusal : Nat → E) (g : Graph) (st : Store)
+    (x : X E) : Prop := ∃ acts, xrun nodes onExec exc refusal g (X.init st) acts = some x
+
+theorem xreach_cases {nodes onExec} {exc : Nat → Nat → E} {refusal g st x}
+    (h : XReach nodes onExec exc refusal g st x) :
+    (x.phase ≤ 1 ∧ Good onExec exc x.s.store) ∨ (x.phase = 2 ∧ Final onExec exc x) := by
+  obtain ⟨acts, ha⟩ := h
+  exact xrun_good nodes onExec exc refusal g acts (X.init st) x (by simp [X.init]) (good_init onExec exc st) ha
+
+/-- ANNOUNCES FAILURE ONLY, at every moment of every schedule: a refused `run()` emitted nothing, a local function that
+raised `failed` only, a submission nothing, a landed job that raised `failed` only, one that completed `ran` (+ branch)
+and never `failed`; own channels only; and whoever is out is an executor child that is not failed -/
+theorem C06_flowx_discipline {nodes onExec} {exc : Nat → Nat → E} {refusal g st x}
+    (h : XReach nodes onExec exc refusal g st x) : Disc onExec x.s.store := by
+  rcases xreach_cases h with ⟨_, hg⟩ | ⟨_, hf⟩
+  · exact hg.disc
+  · exact hf.disc
+
+/-- WHEN THE RUN HAS ENDED: nothing queued, nobody out; every child whose function raised — locally or on an executor,
+refused however often before or after, also while it was out — is failed and the error recorded for it is what that
+invocation raised -/
+theorem C06_flowx_ended {nodes onExec} {exc : Nat → Nat → E} {refusal g st x}
+    (h : XReach nodes onExec exc refusal g st x) (hp : x.phase = 2) :
+    x.s.queue = [] ∧ x.s.store.inflight = [] ∧
+    (∀ i, RaisedIn x.s.store.fs i → x.s.store.fs.st.failed i = true ∧
+      dget x.s.store.fs.book.errors i = some (exc i (x.s.store.fs.st.attempts i))) ∧
+    (∀ ld ∈ x.s.store.landed, ld.raised = true → x.s.store.fs.st.failed ld.child = true ∧
+      dget x.s.store.fs.book.errors ld.child = some (exc ld.child (x.s.store.fs.st.attempts ld.child))) := by
+  rcases xreach_cases h with ⟨hle, _⟩ | ⟨_, hf⟩
+  · omega
+  · exact ⟨hf.quiet.1, hf.quiet.2, hf.origLocal, hf.origExec⟩
+
+/-- REPORTED: if any function raised, locally or on an executor, the ended run has an error to raise -/
+theorem C06_flowx_raises {nodes onExec} {exc : Nat → Nat → E} {refusal g st x}
+    (h : XReach nodes onExec exc refusal g st x) (hp : x.phase = 2)
+    (hr : (∃ i, RaisedIn x.s.store.fs i) ∨ ∃ ld ∈ x.s.store.landed, ld.raised = true) :
+    x.s.store.fs.book.errors ≠ [] := by
+  obtain ⟨_, _, h1, h2⟩ := C06_flowx_ended h hp
+  intro he
+  rcases hr with ⟨i, hi⟩ | ⟨ld, hld, hr⟩
+  · have := (h1 i hi).2; rw [he] at this; simp [dget] at this
+  · have := (h2 ld hld hr).2; rw [he] at this; simp [dget] at this
+
+/-! non-vacuity: `a >> c`, `b >> c`, `c` on an executor and raising: submitted at the first trigger, refused at the second
+(it is out: the refusal is recorded), then its job lands and raises; the sweep puts the original in place -/
+def xNodes : Nat → Node := fun i =>
+  { kind := .term i, slots := [], useCache := false, failAt := if i = 2 then [1] else [] }
+def xGraph : FinGraph :=
+  { conns := [[⟨2, false⟩], [], [], [], [⟨2, false⟩]], accConns := [], labs := [0, 1, 2, 3, 4], starters := [0, 1] }
+def xEnd : Option (X Nat) :=
+  xrun xNodes (fun i => i == 2) (fun i _ => 100 + i) (fun i => 200 + i) xGraph.toGraph (X.init Store.init)
+    [.begin, .start, .start, .deliver, .deliver, .complete 2, .finish]
+
+example : xEnd.map (fun x => (x.phase, x.s.store.fs.log.map (fun en => (en.child, en.raised, en.started)))) =
+    some (2, [(0, false, true), (1, false, true), (2, false, true), (2, true, false)]) := by decide
+example : xEnd.map (fun x => (x.s.store.landed, dget x.s.store.fs.book.errors 2, x.s.store.inflight)) =
+    some ([{ child := 2, raised := true, sigs := [9] }], some 102, []) := by decide
+/-- before the sweep the dict holds the refusal -/
+example : (xrun xNodes (fun i => i == 2) (fun i _ => 100 + i) (fun i => 200 + i) xGraph.toGraph (X.init Store.init)
+    [.begin, .start, .start, .deliver, .deliver, .complete 2]).map (fun x => dget x.s.store.fs.book.errors 2) = some (some 202) := by decide
+/-- the loop cannot end while `c` is out -/
+example : ((xrun xNodes (fun i => i == 2) (fun i _ => 100 + i) (fun i => 200 + i) xGraph.toGraph (X.init Store.init)
+    [.begin, .start, .start, .deliver, .deliver]).bind (fun x => xstep xNodes (fun i => i == 2) (fun i _ => 100 + i) (fun i => 200 + i)
+      xGraph.toGraph x .finish)).isNone = true := by decide
+
+end PwVerif.C06
+
 #print axioms PwVerif.C06.C06_no_downstream
 #print axioms PwVerif.C06.C06_outputs_kept
 #print axioms PwVerif.C06.C06_failed_marked
@@ -855,3 +1055,13 @@ end PwVerif.C06
 #print axioms PwVerif.C06.C06_nest_rerun
 #print axioms PwVerif.C06.C06_nest_rerun_no_downstream
 #print axioms PwVerif.C06.C06_nest_rerun_pinned_witness
+#print axioms PwVerif.C06.C06_suppress_bookkeeping
+#print axioms PwVerif.C06.C06_suppress_result
+#print axioms PwVerif.C06.C06_suppress_nest
+#print axioms PwVerif.C06.C06_suppress_pinned_witness
+#print axioms PwVerif.C06.C06_flowx_discipline
+#print axioms PwVerif.C06.C06_flowx_ended
+#print axioms PwVerif.C06.C06_flowx_raises
+#print axioms PwVerif.C06.C06_nestfine_refines
+#print axioms PwVerif.C06.C06_nestfine_no_downstream
+#print axioms PwVerif.C06.C06_nestfine_nobody_running
